@@ -86,6 +86,13 @@ def _fr(x):
 
 
 def compare(op, a, b):
+    if hasattr(a, "abs_compare"):
+        return a.abs_compare(op, b, False)
+    if hasattr(b, "abs_compare"):
+        return b.abs_compare(op, a, True)
+    if type(op) in (ast.Is, ast.IsNot) and (a is None or b is None or isinstance(a, Vec) or isinstance(b, Vec)):
+        r = a is b
+        return r if isinstance(op, ast.Is) else not r
     if isinstance(a, Vec) or isinstance(b, Vec):
         if type(op) in (ast.In, ast.NotIn) and isinstance(b, Vec) and not isinstance(a, Vec):
             r = any(same(a, x) for x in b.v)
@@ -173,10 +180,16 @@ def compare(op, a, b):
 
 
 def binop(op, a, b):
+    if hasattr(a, "abs_binop"):
+        return a.abs_binop(op, b, False)
+    if hasattr(b, "abs_binop"):
+        return b.abs_binop(op, a, True)
     if isinstance(a, Vec) or isinstance(b, Vec):
         return lift2(lambda x, y: binop(op, x, y), a, b)
     if isinstance(a, Opaque) or isinstance(b, Opaque):
         return Opaque("arith", getattr(a, "prov", ()) + getattr(b, "prov", ()))
+    if isinstance(op, ast.Mult) and isinstance(a, (list, tuple)) and isinstance(b, NRows):
+        return a * b.n
     if type(op) in (ast.BitAnd, ast.BitOr, ast.BitXor):
         if isinstance(a, bool) and isinstance(b, bool):
             return {ast.BitAnd: a and b, ast.BitOr: a or b, ast.BitXor: a != b}[type(op)]
@@ -263,6 +276,8 @@ def pct_format(fmt, args):
 
 
 def truth(c):
+    if hasattr(c, "abs_truth"):
+        return c.abs_truth()
     if isinstance(c, NRows):
         return True
     if isinstance(c, (GA, DF)):
